@@ -244,6 +244,7 @@ func TestC07Contract(t *testing.T) {
 		}
 		pendingIsLatest := rapid.Bool().Draw(rt, "pendingIsLatest")
 		f := newChainFixture(rt, fee, min, pendingIsLatest)
+		restarted := false
 		defer f.backend.Close()
 		defer f.provider.shutdown()
 		feeOf := func(a *big.Int) *big.Int {
@@ -470,6 +471,19 @@ func TestC07Contract(t *testing.T) {
 				var err2 error
 				if second {
 					// the owner (or an impatient client library) asks again before the settlement transaction is mined
+					if !pendingIsLatest && !lateEvents && !f.provider.holding() && rapid.IntRange(0, 2).Draw(rt, "restartBetween") == 0 {
+						// ... and the pool was restarted in between: a new proxy on the same store and chain, nothing
+						// remembered; what it learns about the deposit it learns from the chain's pending state, where
+						// the first settlement already is
+						cp2, err := payment.ContractPayment(f.st, f.addr, f.provider, bind.NewKeyedTransactor(f.operator.key))
+						if err != nil {
+							fail("ContractPayment (restart): %v", err)
+						}
+						f.proxy = cp2
+						f.pay.BalanceStore, f.pay.Settle = cp2, cp2.OpSettle
+						restarted = true
+						hist = append(hist, "(pool restarted: new contract proxy, first settlement still unmined)")
+					}
 					err2 = doWithdraw(w, acct2)
 				}
 				f.backend.Commit()
@@ -562,7 +576,7 @@ func TestC07Contract(t *testing.T) {
 				}
 			}
 		}
-		rec.Case(fmt.Sprintf("chain|%s|%v|%v|%v", fee, min, pendingIsLatest, hist), paidThenAgain, []string{"contract", fmt.Sprintf("contract:second-withdraw:%v", paidThenAgain), fmt.Sprintf("contract:second-under-other-spelling:%v", otherSpelling), fmt.Sprintf("contract:time-locked-withdraw:%v", lockedSeen), fmt.Sprintf("contract:pending-is-latest:%v", pendingIsLatest)}, func() interface{} {
+		rec.Case(fmt.Sprintf("chain|%s|%v|%v|%v", fee, min, pendingIsLatest, hist), paidThenAgain, []string{"contract", fmt.Sprintf("contract:restart-with-unmined-settlement:%v", restarted), fmt.Sprintf("contract:second-withdraw:%v", paidThenAgain), fmt.Sprintf("contract:second-under-other-spelling:%v", otherSpelling), fmt.Sprintf("contract:time-locked-withdraw:%v", lockedSeen), fmt.Sprintf("contract:pending-is-latest:%v", pendingIsLatest)}, func() interface{} {
 			return map[string]interface{}{"kind": "real contract proxy on a simulated chain", "fee": fee, "withdraw_min": fmt.Sprint(min), "provider_pending_is_latest": pendingIsLatest, "history": hist}
 		})
 	})
